@@ -21,6 +21,7 @@ RULE += (' Long-lived senders: 104 group / 103 direct messages in one process li
 RULE += (" stream 'sentqueue': operation sequences (send / receipt that takes the message out / participant receipt that leaves it in; 150-450 operations, "
          "ids repeated) on the real send layer's sent-message memory vs Model/SentQueue.lean, and the clause itself: a message with fewer than MAX_SENT_QUEUE "
          "later sends and no receipt is found by a retry request.")
+RULE += (" Real-system-only scripts (case key realonly): damage to the FIRST ciphertext of a stanza (the pairwise part carrying the sender key) with the sender's next group messages racing the retry — outside the model's fault alphabet, decided by the property's clauses on the real run; a delivery that makes the receive layer handle stanzas more than 400 times is stopped and reported.")
 ASSUMPTIONS = ["symbolic cryptography: a ciphertext opens exactly once, at the holder of the session / sender key it names (python-axolotl exercised, not modelled)",
                "the server double (routing, fan-out, receipts, key and group queries, per-account FIFO queues) is the honest server of the property",
                "fewer than 100 unacknowledged messages per sender; restarts only at quiescence; one fault per (message, recipient)"]
@@ -75,6 +76,16 @@ def cases(chk):
             else:
                 ops.append(["take", max(0, nid - 1 - int(r.expovariate(0.05))) if r.random() < 0.9 else nid + 5, r.choice([0, 0, 1])])
         yield "sentqueue", {"ops": ops}
+    # damage to the FIRST ciphertext of a stanza (in a sender's first group message to a member: the pairwise part that carries the sender key; the
+    # group part stays intact), with the sender's next group messages racing the retry — outside the model's fault alphabet: real system only
+    for i in range(chk.scale(40, 800)):
+        na = r.choice([2, 3, 3])
+        n = r.choice([2, 2, 3, 4])
+        script = [["send", 1 + (j * (i % 2)) % na, "g", 0, r.randrange(70)] for j in range(n)]
+        if i % 4 == 3:
+            script.insert(1, ["wait"])
+        faults = [[0, "corrupt-first"]] + ([[1, r.choice(["corrupt-first", "corrupt"])]] if i % 3 == 0 else [])
+        yield "script", {"accts": na, "groups": [list(range(1, na + 1))], "script": script, "faults": faults, "restarts": [], "seed": r.randrange(1 << 30), "realonly": 1}
     # a long-lived sender: more messages in one process life than any bounded memory of sent messages holds (the property's bound is on
     # UNACKNOWLEDGED messages: each of these is acknowledged before the next), then one whose ciphertext is damaged once
     for kind, n in (("g", 104), ("u", 103)) if chk.quick() else (("g", 104), ("u", 103), ("g", 230)):
@@ -150,12 +161,13 @@ def cases(chk):
         yield "script", {"accts": na, "groups": groups, "script": script, "faults": faults, "restarts": restarts, "seed": r.randrange(1 << 30)}
 
 
-def _run_with_faults(w, r, fault_for, hist, limit=5000):
-    """the real system alone, any schedule to quiescence — the server's remaining faults (one damaged or duplicated copy per listed message) still happen"""
+def _run_with_faults(w, r, fault_for, hist, limit=5000, some=None):
+    """the real system alone, any schedule to quiescence — the server's remaining faults (one damaged or duplicated copy per listed message) still happen.
+    `some`: at most that many actions (the conversation goes on while stanzas are still under way)"""
     n = 0
     while n < limit:
         acts = w.srv.enabled()
-        if not acts:
+        if not acts or (some is not None and n >= some):
             return n
         act = r.choice(acts)
         fault = None
@@ -367,7 +379,12 @@ def run_case(chk, stream, case):
         steps = 0
         faulty = False
         diverged = False
-        while steps < 2000:
+        realonly = bool(case.get("realonly"))
+        if realonly:
+            # faults the model does not have (damage to the FIRST ciphertext of a stanza): the real system alone, the property's clauses decide
+            diverged = True
+            chk.hit("script:real-system-only")
+        while steps < 2000 and not realonly:
             steps += 1
             enabled = d.ask("e2e enabled").split()
             choices = list(enabled)
@@ -480,6 +497,12 @@ def run_case(chk, stream, case):
                     hist.append("restart %d" % item[1])
                     continue
                 _s, a, k, dst, tok = item
+                if realonly and nsend:
+                    # the next send comes while earlier stanzas are still under way: a few server actions in between
+                    try:
+                        _run_with_faults(w, r, fault_for, hist, some=r.choice([0, 1, 2, 3, 4, 6, 9, 14]))
+                    except Exception:
+                        pass
                 mid = 100 + nsend
                 nsend += 1
                 to = w.clients[dst].jid if k == "u" else w.gjid[dst]
@@ -494,6 +517,10 @@ def run_case(chk, stream, case):
                 hist.append("… (no quiescence)")
         # ------------------------------------------------------------ the property's clauses on the real run (script fully drained)
         ctx = "accounts=%d groups=%s actions=%s" % (case["accts"], case["groups"], hist)
+        if realonly and w.srv.raised:
+            j, e, tb = w.srv.raised[0]
+            fails.append(oracle("C03:exception-escaped:" + type(e).__name__, "%s: %s raised in account %d: %s" % (ctx, type(e).__name__, acct_of(j), tb.strip().splitlines()[-1])))
+            return fails
         nbefore = len(fails)
         for mid, (a, k, dst, tok, canon, content) in sorted(w.sent.items()):
             intended = [dst] if k == "u" else [m for m in case["groups"][dst] if m != a]
